@@ -99,6 +99,20 @@ def graph_case(draw):
                 shift[2] = 0.05 - lowest + draw(st.floats(0, 1))
             case['xforms'].append({'kind': 'translate', 'key': float(key), 'v': [gen.r6(x) for x in shift], 'tag': o['_tag']})
             key += 1
+    # one or two straight wires are given somewhere else and moved into place by a translation of their tag (the
+    # junctions exist only after the move)
+    if draw(st.integers(0, 4)) == 0:
+        build.assign_tags(case)
+        for o in objs:
+            if o['type'] == 'wire' and draw(st.integers(0, 2)) == 0:
+                v = [float(draw(st.integers(-3, 3))), float(draw(st.integers(-3, 3))), 0.0 if ground else float(draw(st.integers(-3, 3)))]
+                if not any(v):
+                    continue
+                o['p1'] = [float(a - b) for a, b in zip(o['p1'], v)]
+                o['p2'] = [float(a - b) for a, b in zip(o['p2'], v)]
+                case['xforms'].append({'kind': 'translate', 'key': float(key), 'v': v, 'tag': o['_tag']})
+                key += 1
+                case['_moved'] = True
     # perturbations of wire ends
     items = rgeo.transformed(case)
     minseg = 1e9
